@@ -442,13 +442,14 @@ def gen_paths(maxlen: int, curves: bool) -> Iterator[Tuple[Tuple, ...]]:
     yield from rec([], frozenset(), "start", 0)
 
 
+PAGES_SHARDS = 4
 PATH_ILL = [("l", 8), ("l", b"x", 16), ("re", 8, 16, 16), ("c", 1, 2, 3, 4, 5), ("v", "/N", 2, 3, 4)]
 
 BOUNDS = {
     "quick": {"gs_depth": {"all": 3, "core": 4}, "gs_shard_depth": {"all": 1, "core": 2}, "path_len_curves": 4, "path_len_lines": 5,
-              "ill_len": 3, "batch": 24, "lines_ends": ["S", "b", "f*", "n"], "lines_ctm_ends": ["b*"]},
+              "ill_len": 3, "pages_len": 3, "batch": 24, "lines_ends": ["S", "b", "f*", "n"], "lines_ctm_ends": ["b*"]},
     "thorough": {"gs_depth": {"all": 4, "core": 5}, "gs_shard_depth": {"all": 2, "core": 2}, "path_len_curves": 5, "path_len_lines": 6,
-                 "ill_len": 4, "batch": 24, "lines_ends": list(PAINT) + ["n"], "lines_ctm_ends": ["S", "b*"]},
+                 "ill_len": 4, "pages_len": 4, "batch": 24, "lines_ends": list(PAINT) + ["n"], "lines_ctm_ends": ["S", "b*"]},
 }
 
 META = {
@@ -462,7 +463,9 @@ META = {
         "path_len_curves operators x every end operator (S s f f* B B* b b* n) under the identity CTM and x {S, b*} under 6 further CTMs (translate, "
         "scale, rot90, rot45, shear, mirror), and over m l h re only of at most path_len_lines x lines_ends / lines_ctm_ends; objects run back to back (batch) so each is also "
         "followed by another object; family ill: path objects up to ill_len with one ill-formed construction operator inserted at every position "
-        "after the first segment. A case = one path object x end operator x CTM, or one gs history + probe; non-trivial = at least one shape expected. "
+        "after the first segment; family pages: for every path object of at most pages_len construction operators a 15-page document processed by one "
+        "interpreter and one device in which pages end with that object neither painted nor ended by n (alone, or after a painted object), each followed by "
+        "a page painting one of 3 fixed programs, plus pages that invoke a form XObject ending the same way before painting. A case = one path object x end operator x CTM, or one gs history + probe; non-trivial = at least one shape expected. "
         "states = gs states + nodes of the path-construction tree, transitions = operator applications, traces = programs compared with the model."
     ),
     "bound": {k: str(v) for k, v in BOUNDS.items()},
@@ -607,6 +610,50 @@ def run_batch(ck: Checker, pre: Tuple, objs: List[Tuple], st, what="path"):
             ck.report(events, exp, obs, exc, diff(exp, obs) if exc is None else ["exception"], what + " (whole batch only)")
 
 
+# ------------------------------------------------------------------ family: no residue across pages / forms
+PAGE2 = [
+    (("re", 8, 16, 16, 32), ("B",)),
+    (("m", 40, 16), ("l", 56, 24), ("S",)),
+    (("w", 2), ("m", 8, 16), ("l", 24, 16), ("l", 24, 48), ("h",), ("f*",), ("re", 30, 10, -12, 20), ("s",)),
+]
+PAGE1_HEAD = [(), (("re", 30, 10, -12, 20), ("f",))]  # page 1 paints nothing / one object before the abandoned path
+
+
+def pages_check(ck, tail, st):
+    """page 1 ends with the construction operators ``tail`` that are never painted nor ended with n; page 2 (same
+    interpreter, same device) and a page that first invokes a form XObject ending the same way must not show them"""
+    from pdfminer.layout import LTCurve  # noqa
+
+    d = G.Doc()
+    form = d.add(G.Stream({"Type": G.N("XObject"), "Subtype": G.N("Form"), "BBox": [0, 0, 200, 200]}, gfx.program(tail)))
+    pages = []
+    exps = []
+    for head in PAGE1_HEAD:
+        for p2 in PAGE2:
+            pages += [(gfx.program(head + tail), {}), (gfx.program(p2), {})]
+            exps += [list(run_model(head + tail).out), list(run_model(p2).out)]
+    for p2 in PAGE2:
+        pages.append((b"/Fm0 Do " + gfx.program(p2), {"XObject": {"Fm0": form}}))
+        exps.append(list(run_model(p2).out))
+    data = gfx.pages_doc(pages, doc=d)
+    res = gfx.run_pages(data)
+    st.traces += 1
+    bad = []
+    obss = []
+    for exp, (lt, exc) in zip(exps, res):
+        obs = observe(lt) if exc is None else gfx.exc_sig(exc)
+        obss.append(obs)
+        b = diff(exp, obs) if exc is None else ["exception"]
+        bad += [x for x in b if x not in bad]
+    if len(res) != len(pages):
+        bad.append("pages")
+    st.case(None, nontrivial=True, outcome=h64(repr([[o["cls"] for o in ob] if isinstance(ob, list) else ob for ob in obss])), n=len(pages))
+    if bad:
+        sig = "C16/residue-across-pages-or-forms:" + ",".join(sorted(bad))
+        st.violation(sig, {"family": "pages", "tail": list(tail), "pdf": data if st.viol_counts[sig] < st.MAX_VIOL_PER_SIG else b""},
+                     [gfx.fl(e) for e in exps], obss, "path abandoned at the end of a page / form shows up later: " + ",".join(sorted(bad)))
+
+
 def tree_size(paths) -> Tuple[int, int]:
     """nodes / edges of the prefix tree of the enumerated construction sequences"""
     seen = set()
@@ -628,6 +675,7 @@ def shards(tier):
             out.append(("gs-sub", fam, node.hist))
     out += path_jobs(tier)
     out.append(("ill",))
+    out += [("pages", i) for i in range(PAGES_SHARDS)]
     return out
 
 
@@ -690,12 +738,28 @@ def run_shard(shard, tier, st):
         if batch:
             run_batch(ck, (("w", 2),), batch, st, "ill-formed construction operator")
         st.add("illformed_path_objects", n)
+    elif kind == "pages":
+        ck = Checker(st)
+        tails = [p for i, p in enumerate(gen_paths(b["pages_len"], True)) if i % PAGES_SHARDS == shard[1]]
+        for t in tails:
+            pages_check(ck, tuple(t), st)
+        st.states += len(tails) + 1
+        st.transitions += len(tails)
+        st.add("multi_page_documents", len(tails))
+        if shard[1] == 0 and tails:
+            st.sample({"family": "pages", "page1_ends_with": gfx.program(tails[-1]), "page2": [gfx.program(p) for p in PAGE2]})
     else:
         raise ValueError(shard)
     st.add("real_runs", ck.bench.runs)
 
 
 def replay(case):
+    if case.get("family") == "pages":
+        from mc.core import Stats
+
+        st = Stats()
+        pages_check(Checker(st), tuple(gfx.ev_from_json(e) for e in case["tail"]), st)
+        return [{"signature": v["signature"], "expected": repr(v["expected"]), "observed": repr(v["observed"])} for v in st.violations]
     events = tuple(gfx.ev_from_json(e) for e in case["events"])
     ck = Checker(None)
     obs, it, dev, exc = ck.run_events(events)
